@@ -67,7 +67,7 @@ Proof. exact data_lexes. Qed.
 Print Assumptions read_print_tokens.
 
 Theorem read_print_data : forall is_print v fuel, dat is_print false v -> (vsize v + 3 <= fuel)%nat ->
-  observe (parse_whole true fuel (print is_print v)) = (StDone, [to_sexp v]).
+  observe (parse_whole true false fuel (print is_print v)) = (StDone, [to_sexp v]).
 Proof. exact PrinterProofs.read_print_data. Qed.
 Print Assumptions read_print_data.
 
@@ -124,15 +124,15 @@ Print Assumptions string_denotes_esc.
 
 (* ---- refuted on the code as it is (known findings quote-escapes-unreadable, neg-leading-dot) ---- *)
 Theorem quote_escape_refuted : forall is_print, is_print 8 = false ->
-  observe (parse_whole true 50 (print is_print (VStr [Rune 8]))) = (StErr, []) /\
-  observe (parse_whole true 50 (print is_print (VChar 8))) = (StErr, []).
+  observe (parse_whole true false 50 (print is_print (VStr [Rune 8]))) = (StErr, []) /\
+  observe (parse_whole true false 50 (print is_print (VChar 8))) = (StErr, []).
 Proof. exact PrinterProofs.quote_escape_refuted. Qed.
 Print Assumptions quote_escape_refuted.
 
 Theorem quote_escape_refuted_u : forall is_print, is_print 133 = false -> is_print 917505 = false ->
-  observe (parse_whole true 50 (print is_print (VStr [Rune 133]))) = (StErr, []) /\
-  observe (parse_whole true 50 (print is_print (VStr [Rune 917505]))) = (StErr, []) /\
-  observe (parse_whole true 50 (print is_print (VStr [BadByte 255]))) = (StErr, []).
+  observe (parse_whole true false 50 (print is_print (VStr [Rune 133]))) = (StErr, []) /\
+  observe (parse_whole true false 50 (print is_print (VStr [Rune 917505]))) = (StErr, []) /\
+  observe (parse_whole true false 50 (print is_print (VStr [BadByte 255]))) = (StErr, []).
 Proof. exact PrinterProofs.quote_escape_refuted_u. Qed.
 Print Assumptions quote_escape_refuted_u.
 
@@ -157,7 +157,7 @@ Definition sample : value :=
     (VArr [VUint (2 ^ 64 - 1); VNil; VBool true]))).
 
 Example sample_reads_back :
-  observe (parse_whole true 40 (print ascii_print sample)) = (StDone, [to_sexp sample]).
+  observe (parse_whole true false 40 (print ascii_print sample)) = (StDone, [to_sexp sample]).
 Proof. vm_compute. reflexivity. Qed.
 
 Example sample_text : print ascii_print (VPair (VInt (-5)) (VArr [VChar 233; VStr [Rune 10]]))
